@@ -9,7 +9,7 @@ import time
 
 ROOT = os.path.dirname(os.path.dirname(os.path.abspath(__file__)))
 REPO = os.environ.get("VERIF_REPO", "/repo")
-ALPHABET = ["[", "r", "e", "f", ":", " ", "]", "0", "1", "9", "٣", "x"]
+ALPHABET = ["[", "r", "e", "f", ":", " ", "]", "0", "1", "9", "٣", "x", "+"]
 
 HARNESS = r'''
 use std::io::BufRead;
